@@ -170,6 +170,25 @@ def oracle(ck, tier, deep):
                     ck.violation(dict(sig, clause="valid-flag"), dict(rep, radius=R), f"radius {R} has no weighted pixel but is flagged valid")
         if case["reg"] is None and not valid.all() and np.abs(cn[:, ~valid]).max() != 0:
             ck.violation(dict(sig, clause="invalid-zero"), rep, "invalid radii are not zero in an unregularised transform")
+        # the weights array edited in place between two calls: the second call describes the edited weights
+        if case["weights"] is not None and it % 2 == 0:
+            yy, xx = np.mgrid[:h, :w]
+            rr = np.hypot(yy - row, xx - col)
+            a = float(rng.uniform(2, max(3, rmax - 3)))
+            wlive = case["weights"]
+            keep = wlive.copy()
+            wlive[(rr > a) & (rr < a + 3)] = 0            # in place: same object as in the previous calls
+            try:
+                img_l, d_l = call(case, im, "same")
+                abel.rbasex.cache_cleanup()
+                img_f, d_f = call(dict(case, weights=wlive.copy()), im, "same")
+                if np.abs(d_l.cos() - d_f.cos()).max() > 1e-9 * scale or not np.array_equal(np.asarray(d_l.valid), np.asarray(d_f.valid)) \
+                        or np.abs(img_l - img_f).max() > 1e-9 * scale:
+                    ck.violation(dict(sig, clause="weights-edited-in-place"), dict(rep, ring=[a, a + 3]),
+                                 "after the weights array was edited in place, the transform (image / distributions / valid flags) "
+                                 "is not the transform for the edited weights")
+            finally:
+                wlive[...] = keep
         # abel.Transform pass-through
         if it % 3 == 0 and not isinstance(case["origin"], str):
             opts = dict(origin=case["origin"], rmax=case["rmax"], order=case["order"], odd=case["odd"], weights=case["weights"], reg=case["reg"], out="same")
